@@ -102,18 +102,28 @@ func zzC17SetStep() {
 		got, _ := fs.get(k)
 		vAssert(got == np, "C17.add.stored")
 		vAssert(fs.len() == len(keys), "C17.add.len")
-	case 1: // remove (present, absent)
+	case 1: // remove one or two names, each present or absent (the two may coincide)
 		k := zzKey("rmkey")
+		names := []string{k}
+		if vBool("twoNames") {
+			names = append(names, zzKey("rmkey2"))
+		}
 		present := false
 		var rest []string
 		for _, o := range keys {
-			if o == k {
+			hit := false
+			for _, nm := range names {
+				if o == nm {
+					hit = true
+				}
+			}
+			if hit {
 				present = true
 			} else {
 				rest = append(rest, o)
 			}
 		}
-		changed := fs.remove(k)
+		changed := fs.remove(names...)
 		vAssert(changed == present, "C17.remove.changed")
 		keys = rest
 		vAssert(fs.len() == len(keys), "C17.remove.len")
